@@ -473,6 +473,7 @@ const preamble = `(declare-sort Str 0)
 (declare-fun sat (Str Int) Int)
 (declare-const str!empty Str)
 (assert (= (slen str!empty) 0))
+(assert (forall ((s Str)) (! (>= (slen s) 0) :pattern ((slen s)))))
 (declare-datatypes ((Slice 0)) (((mk-slice (s.arr Int) (s.off Int) (s.len Int) (s.cap Int)))))
 (declare-datatypes ((Iface 0)) (((mk-iface (i.typ Int) (i.val Int)))))
 (define-fun tdiv ((a Int) (b Int)) Int (ite (>= a 0) (ite (> b 0) (div a b) (- (div a (- b)))) (ite (> b 0) (- (div (- a) b)) (div (- a) (- b)))))
